@@ -188,6 +188,12 @@ def run_model(ctx, case):
     rhos = [(x + x.conj().T) / 2 for x in rhos]
     ranks = [int((np.linalg.eigvalsh(x) > 1e-10).sum()) for x in rhos]
     rank = max(ranks)
+    # a model built for FEWER eigenvectors than the state has: it must refuse the state or still describe the state that was given
+    under_rank = (case['prng'] % 5 == 0 and rank >= 2)
+    if under_rank:
+        rank = rank - 1
+    # one ndarray re-used by the caller for successive states (overwritten in place between the calls)
+    same_buffer = bool(case['reuse'] and case['prng'] % 2 == 0)
     nterm = min(8, max(2, rank) + case['extra'])
     ctx.note(klass=name, desc=[name, nterm, case['scale'], case['reuse'], case['s1']['kind']], nontrivial=(case['scale'] in (1e-6, 10.0) or case['reuse']),
              labels=[name, f'scale={case["scale"]}', 'reused model' if case['reuse'] else 'fresh model'])
@@ -200,8 +206,23 @@ def run_model(ctx, case):
     else:
         model = E.DensityMatrixLinearEntropyModel((2, 2), nterm, rank=rank, kind='convex', method=('polar' if name == 'linent_polar' else 'qr'))
     r = ref.rng(case['prng'])
+    buf = np.zeros((4, 4), dtype=np.complex128)
     for it, rho in enumerate(rhos):
-        model.set_density_matrix(rho)
+        if same_buffer:
+            buf[...] = rho
+            arg = buf
+            ctx.label('same array object re-used for the next state')
+        else:
+            arg = rho
+        try:
+            model.set_density_matrix(arg)
+        except AssertionError:
+            if under_rank and ranks[it] > rank:
+                ctx.label('state of higher rank than the model refused')
+                continue
+            raise
+        if under_rank and ranks[it] > rank:
+            ctx.label('state of higher rank than the model accepted')
         with torch.no_grad():
             for p in model.parameters():
                 p.copy_(torch.tensor(r.normal(size=tuple(p.shape)) * case['scale'], dtype=p.dtype))
